@@ -48,7 +48,7 @@ def divided_by(num: Union[float, int], other: object) -> Union[float, int]:
     try:
         if isinstance(other, int) and isinstance(num, int):
             return num // other
-        return num / other
+        return float(decimal.Decimal(str(num)) / decimal.Decimal(str(other)))
     except ZeroDivisionError as err:
         raise FilterArgumentError(
             f"divided_by: can't divide by {other}", token=None
@@ -122,7 +122,13 @@ def modulo(num: Union[float, int], other: Union[float, int]) -> Union[float, int
     try:
         if isinstance(num, int) and isinstance(other, int):
             return num % other
-        return float(decimal.Decimal(str(num)) % decimal.Decimal(str(other)))
+        divisor = decimal.Decimal(str(other))
+        rem = decimal.Decimal(str(num)) % divisor
+        if rem.is_finite() and rem and (rem < 0) != (divisor < 0):
+            # Decimal's remainder takes the sign of the dividend. As with
+            # integers, the result should take the sign of the divisor.
+            rem += divisor
+        return float(rem)
     except ZeroDivisionError as err:
         raise FilterArgumentError(
             f"modulo: can't divide by {other}", token=None
